@@ -9,8 +9,11 @@ CONSTANTS
   IdleLimit = 0
   MaxFaults = 0
   AcceptSurvives = TRUE
+  PipelinedChild = FALSE
+  AsyncDrain = FALSE
   Drops = TRUE
   Exits = TRUE
   Pauses = FALSE
   Faults = FALSE
+  Pipelines = FALSE
 CHECK_DEADLOCK FALSE
